@@ -13,8 +13,12 @@
  * There is no expectation in here: names are translated to numbers with the C headers, nothing more.
  *
  * script line (space separated; strings hex-encoded with a leading 'x'):
- *   id cwd sysname acc flags d1lo d1hi d1dir p1 p1fd d2lo d2hi d2dir p2 p2fd args
+ *   id cwd sysname acc flags d1lo d1hi d1dir p1 p1fd d2lo d2hi d2dir p2 p2fd args m1 m2
  * p1fd/p2fd: if not empty, a directory to open; the name becomes /proc/self/fd/<N>/<p>
+ * m1/m2: <where>:<gap> placement of the string relative to a page boundary B of an mmap'ed region:
+ *   static (the ordinary buffer), in (ends 100 bytes before B), end (NUL is the last byte before B),
+ *   one / mid / last (B after the first byte / in the middle / before the last byte), nul (only the NUL
+ *   behind B); gap=1: the page after the one holding the NUL is PROT_NONE.  Both modes place alike.
  */
 #define _GNU_SOURCE
 #include <errno.h>
@@ -23,6 +27,7 @@
 #include <stdio.h>
 #include <stdlib.h>
 #include <string.h>
+#include <sys/mman.h>
 #include <sys/stat.h>
 #include <sys/syscall.h>
 #include <unistd.h>
@@ -188,6 +193,41 @@ static void truth(uint64_t reg, const char *path, int nofollow, char *out)
 	sprintf(out, "err:ENOENT:%s", ename(ce));
 }
 
+#define PG 4096
+#define NPG 6
+
+/* copy s into region (NPG pages, read-write) as the token asks; returns where it starts */
+static char *place(char *region, char *s, const char *tok)
+{
+	char b[16];
+	int gap = 0;
+	size_t len = strlen(s), tot = len + 1, bpos;
+	const char *c = strchr(tok, ':');
+	if (!c || (size_t)(c - tok) >= sizeof b) die("bad placement", tok);
+	memcpy(b, tok, (size_t)(c - tok));
+	b[c - tok] = 0;
+	gap = c[1] == '1';
+	if (!strcmp(b, "static")) return s;
+	if (mprotect(region, NPG * PG, PROT_READ | PROT_WRITE)) die("mprotect rw", "");
+	memset(region, 0, NPG * PG);
+	char *B = region + 2 * PG;
+	if (!strcmp(b, "in")) bpos = tot + 100;
+	else if (!strcmp(b, "end")) bpos = tot;
+	else if (!strcmp(b, "one")) bpos = 1;
+	else if (!strcmp(b, "mid")) bpos = tot / 2 ? tot / 2 : 1;
+	else if (!strcmp(b, "last")) bpos = len > 1 ? len - 1 : 1;
+	else if (!strcmp(b, "nul")) bpos = len ? len : 1;
+	else { die("unknown placement", tok); return 0; }
+	if (tot > PG) die("string too long to place", "");
+	char *start = B - bpos;
+	memcpy(start, s, tot);
+	if (gap) {
+		char *nulpage = region + ((size_t)(start + len - region) / PG) * PG;
+		if (mprotect(nulpage + PG, PG, PROT_NONE)) die("mprotect none", "");
+	}
+	return start;
+}
+
 struct dspec { char lo[16], hi[16], dir[4200]; int fd; uint64_t reg; };
 
 static void dprep(struct dspec *d)
@@ -209,10 +249,13 @@ int main(int argc, char **argv)
 {
 	int do_truth = argc > 1 && !strcmp(argv[1], "truth");
 	if (argc < 2 || (!do_truth && strcmp(argv[1], "trace"))) die("usage: pathwalk truth|trace < script", "");
-	static char line[60000], cwd[4200], p1[4300], p2[4300], pf1[4200], pf2[4200], tmpn[4200], tok[16][8500];
+	static char line[60000], cwd[4200], p1[4300], p2[4300], pf1[4200], pf2[4200], tmpn[4200], tok[18][8500];
 	static char t1f[9000], t1n[9000], t2f[9000], t2n[9000], buf[4096];
 	static struct dspec d1, d2;
 	static char strarg[] = "zz/tgt";
+	char *reg1 = mmap(0, NPG * PG, PROT_READ | PROT_WRITE, MAP_PRIVATE | MAP_ANONYMOUS, -1, 0);
+	char *reg2 = mmap(0, NPG * PG, PROT_READ | PROT_WRITE, MAP_PRIVATE | MAP_ANONYMOUS, -1, 0);
+	if (reg1 == MAP_FAILED || reg2 == MAP_FAILED) die("mmap", "");
 	static char *argvv[] = {"probe", 0};
 	static struct how how;
 	setvbuf(stdout, 0, _IOFBF, 1 << 16);
@@ -220,10 +263,10 @@ int main(int argc, char **argv)
 	while (fgets(line, sizeof line, stdin)) {
 		int n = 0, i;
 		char *sv, *t;
-		for (t = strtok_r(line, " \n", &sv); t && n < 16; t = strtok_r(0, " \n", &sv))
+		for (t = strtok_r(line, " \n", &sv); t && n < 18; t = strtok_r(0, " \n", &sv))
 			cpy(tok[n++], sizeof tok[0], t);
 		if (n == 0) continue;
-		if (n != 16) die("bad script line", tok[0]);
+		if (n != 18) die("bad script line", tok[0]);
 		unhex(tok[1], cwd, sizeof cwd);
 		long nr = -1;
 		for (i = 0; sysnr[i].n; i++)
@@ -256,13 +299,16 @@ int main(int argc, char **argv)
 			snprintf(p2, sizeof p2, "/proc/self/fd/%d/%s", afd2, tmpn);
 		}
 
+		char *q1 = place(reg1, p1, tok[16]);
+		char *q2 = place(reg2, p2, tok[17]);
+
 		if (do_truth) {
 			int two = strstr(tok[15], "p2") != 0;
-			truth(d1.reg, p1, 0, t1f);
-			truth(d1.reg, p1, 1, t1n);
+			truth(d1.reg, q1, 0, t1f);
+			truth(d1.reg, q1, 1, t1n);
 			if (two) {
-				truth(d2.reg, p2, 0, t2f);
-				truth(d2.reg, p2, 1, t2n);
+				truth(d2.reg, q2, 0, t2f);
+				truth(d2.reg, q2, 1, t2n);
 			} else {
 				strcpy(t2f, "-");
 				strcpy(t2n, "-");
@@ -282,8 +328,8 @@ int main(int argc, char **argv)
 		for (t = strtok_r(args, ",", &sv); t && i < 6; t = strtok_r(0, ",", &sv), i++) {
 			if (!strcmp(t, "d1")) a[i] = d1.reg;
 			else if (!strcmp(t, "d2")) a[i] = d2.reg;
-			else if (!strcmp(t, "p1")) a[i] = (uint64_t)(uintptr_t)p1;
-			else if (!strcmp(t, "p2")) a[i] = (uint64_t)(uintptr_t)p2;
+			else if (!strcmp(t, "p1")) a[i] = (uint64_t)(uintptr_t)q1;
+			else if (!strcmp(t, "p2")) a[i] = (uint64_t)(uintptr_t)q2;
 			else if (!strcmp(t, "fl")) a[i] = acc | fl;
 			else if (!strcmp(t, "at")) a[i] = fl;
 			else if (!strcmp(t, "how")) a[i] = (uint64_t)(uintptr_t)&how;
